@@ -212,6 +212,19 @@ func (f *frontend) ViewStringChanged(v termemu.ViewString, value string) {
 	f.lastStrs[int(v)] = value
 }
 
+// decoyFrontend is the frontend a terminal is built with in the cases where the recording frontend is attached
+// afterwards through the public SetFrontend: from then on no callback may reach it.
+type decoyFrontend struct{ hits int }
+
+func (d *decoyFrontend) Bell()                                              { d.hits++ }
+func (d *decoyFrontend) RegionChanged(termemu.Region, termemu.ChangeReason) { d.hits++ }
+func (d *decoyFrontend) ScrollLines(int)                                    { d.hits++ }
+func (d *decoyFrontend) CursorMoved(int, int)                               { d.hits++ }
+func (d *decoyFrontend) StyleChanged(termemu.Style)                         { d.hits++ }
+func (d *decoyFrontend) ViewFlagChanged(termemu.ViewFlag, bool)             { d.hits++ }
+func (d *decoyFrontend) ViewIntChanged(termemu.ViewInt, int)                { d.hits++ }
+func (d *decoyFrontend) ViewStringChanged(termemu.ViewString, string)       { d.hits++ }
+
 // ---------- shadow screen (C10) ----------
 
 type scell struct {
@@ -340,6 +353,7 @@ type runner struct {
 	fed             int
 	out             *bufio.Writer
 	loopErr         error
+	decoy           *decoyFrontend // non-nil: the terminal was built with this frontend, the recording one attached by SetFrontend
 }
 
 func (r *runner) start() {
@@ -353,7 +367,16 @@ func (r *runner) start() {
 	if r.hdr.mode == 1 {
 		mode = termemu.TextReadModeGrapheme
 	}
-	r.vt = termemu.VerifNew(r.fe, r.be, mode, r.hdr.grid != 0, true)
+	// every other case builds the terminal with a decoy frontend and attaches the recording one through the
+	// public SetFrontend (both buffers must follow it)
+	if (r.hdr.w+r.hdr.h+len(r.hdr.id))%2 == 1 {
+		r.decoy = &decoyFrontend{}
+		r.vt = termemu.VerifNew(r.decoy, r.be, mode, r.hdr.grid != 0, true)
+		r.vt.Terminal().SetFrontend(r.fe)
+		r.decoy.hits = 0
+	} else {
+		r.vt = termemu.VerifNew(r.fe, r.be, mode, r.hdr.grid != 0, true)
+	}
 	r.fe.vt = r.vt
 	func() {
 		defer func() {
@@ -562,6 +585,10 @@ func (r *runner) observe() []string {
 	}
 	if r.wedged {
 		problems = append(problems, "C01 wedge: loop did not return to the backend read within the time budget")
+	}
+	if r.decoy != nil && r.decoy.hits > 0 {
+		problems = append(problems, fmt.Sprintf("C10 %d callbacks went to the frontend that SetFrontend had replaced", r.decoy.hits))
+		r.decoy.hits = 0
 	}
 	if r.fe.unlocked > 0 {
 		problems = append(problems, fmt.Sprintf("C15 %d callbacks ran without the terminal lock", r.fe.unlocked))
